@@ -7,7 +7,7 @@ import ast
 from ..interp import cval, has_const
 from ..source import norm_text
 from .common import calls_in
-from .geo import uniq_events
+from .geo import under, uniq_events
 
 FT = 'gemdat.transitions.Transitions.from_trajectory'
 CTE = 'gemdat.transitions._calculate_transition_events'
@@ -36,7 +36,7 @@ def check(ctx):
     ctx.floor('R4', 2)
     it = ctx.entry(FT)
     fi = ctx.fn(CTE)
-    inside = lambda f: f.qualname == CTE
+    inside = under(CTE)
     # ---- R1
     n = 0
     for e in uniq_events(it, {'index'}, inside):
